@@ -22,7 +22,8 @@
 (*                                 or cancel signal is never refused (C09)  *)
 (*   exitdrop t                    ExitStep on a full ring                  *)
 (*   ret t parked=n                Len(pend[t]) = n                         *)
-(*   ret t op=exit                 ExitStep, last: t is dead                *)
+(*   call / ret t op=exit          BeginExit ... ExitStep, last: t is exiting,*)
+(*                                 then dead                                *)
 (*   drain t                       Pop* until empty: batch \o ring[t]       *)
 (*   rxremoved t                   Abandon / Repop removing the receiver:   *)
 (*                                 t is dead and its ring is empty (C01:    *)
@@ -40,7 +41,7 @@ Get(f, x, d) == IF x \in DOMAIN f THEN f[x] ELSE d
 Put(f, x, v) == [y \in DOMAIN f \cup {x} |-> IF y = x THEN v ELSE f[y]]
 EmptyFn == [x \in {} |-> None]
 
-ChanInit(k) == [K |-> k, ring |-> EmptyFn, pend |-> EmptyFn, batch |-> <<>>, dead |-> {}, removed |-> {},
+ChanInit(k) == [K |-> k, ring |-> EmptyFn, pend |-> EmptyFn, batch |-> <<>>, dead |-> {}, exiting |-> {}, removed |-> {},
                 n |-> 0, steered |-> FALSE, events |-> 0, drift |-> <<>>]
 
 Drift(c, w, d, p) == [c EXCEPT !.drift = Append(@, [w |-> w, d |-> d, p |-> p])]
@@ -80,13 +81,16 @@ ChanStep(c0, e) ==
              c1 == IF c.steered /\ t \in DOMAIN c.pend /\ Len(p) # e.parked /\ e.op # "exit"
                    THEN Drift(c, "overflow-list-length", <<t, e.op, "model", Len(p), "code", e.parked>>, "") ELSE c IN
          IF e.op = "exit" THEN [c1 EXCEPT !.dead = @ \cup {t}] ELSE c1
+    \* the producer half is released inside the exit call, some time before the harness can log its return: from
+    \* the call on the collector may see the channel abandoned (tst = "exiting" / "dead" in Channel.tla)
+    [] e.ev = "call" /\ "op" \in DOMAIN e /\ e.op = "exit" /\ "t" \in DOMAIN e -> [c EXCEPT !.exiting = @ \cup {e.t}]
     [] e.ev = "drain" /\ e.t # 0 ->
          LET t == e.t r == Get(c.ring, t, <<>>)
              c1 == IF t \in c.removed THEN Drift(c, "drained-a-removed-receiver", t, "") ELSE c IN
          [c1 EXCEPT !.batch = @ \o r, !.ring = Put(@, t, <<>>)]
     [] e.ev = "rxremoved" /\ e.t # 0 ->
          LET t == e.t r == Get(c.ring, t, <<>>)
-             c1 == IF t \notin c.dead THEN Drift(c, "receiver-of-a-live-thread-removed", t, "") ELSE c
+             c1 == IF t \notin c.dead \cup c.exiting THEN Drift(c, "receiver-of-a-live-thread-removed", t, "") ELSE c
              c2 == IF r # <<>> THEN Drift(c1, "commands-destroyed-with-their-receiver", <<t, [i \in DOMAIN r |-> r[i].k]>>, "C01") ELSE c1 IN
          [c2 EXCEPT !.removed = @ \cup {t}, !.ring = Put(@, t, <<>>)]
     [] e.ev = "process" ->
